@@ -47,6 +47,9 @@ type gatedLocation struct {
 	armed   bool
 	arrived chan struct{}
 	release chan struct{}
+	faultAt int    // the faultAt-th copy of a DKV file into a savepoint artifact fails with ErrNotFound (0 = none)
+	copies  int
+	faulted string // the file whose copy failed
 }
 
 func (g *gatedLocation) arm() {
@@ -70,7 +73,22 @@ func (g *gatedLocation) Write(p string, data io.Reader) (string, error) {
 func (g *gatedLocation) Read(p string) ([]byte, error)       { return g.inner.Read(p) }
 func (g *gatedLocation) List() iter.Seq2[string, error]      { return g.inner.List() }
 func (g *gatedLocation) URI(p string) (string, error)        { return g.inner.URI(p) }
-func (g *gatedLocation) Copy(src string, dst string) error   { return g.inner.Copy(src, dst) }
+func (g *gatedLocation) Copy(src string, dst string) error {
+	if strings.Contains(dst, "savepoints") && strings.Contains(dst, "/dkv/") {
+		g.mu.Lock()
+		g.copies++
+		hit := g.faultAt > 0 && g.copies == g.faultAt
+		if hit {
+			g.faulted = src
+		}
+		g.mu.Unlock()
+		if hit {
+			return locations.ErrNotFound // the file vanished between the DKV checkpoint and the copy
+		}
+	}
+	return g.inner.Copy(src, dst)
+}
+func (g *gatedLocation) fault() string { g.mu.Lock(); defer g.mu.Unlock(); return g.faulted }
 func (g *gatedLocation) Remove(paths ...string) error        { return g.inner.Remove(paths...) }
 
 type jobSide struct {
@@ -232,10 +250,14 @@ func (cl *cluster) savepointRestart(o op, tags map[string]bool, tableIDs map[str
 		ss[i] = fmt.Sprint(x)
 	}
 	*terms = append(*terms, fmt.Sprintf("SSave (SpStarts %s %d %s)", hx.CoqBool(o.Fold), counterAtStart, hx.CoqList(ss, "N")))
+	over := o.Late && o.Over
 	if o.Late {
 		js.loc.arm()
 		tags["later-dkv-checkpoint-before-copy"] = true
 	}
+	js.loc.mu.Lock()
+	js.loc.faultAt, js.loc.copies, js.loc.faulted = o.Fault, 0, ""
+	js.loc.mu.Unlock()
 	acks, err := cl.barrierAll(id)
 	if err != nil {
 		return "", nil, false, err
@@ -271,17 +293,39 @@ func (cl *cluster) savepointRestart(o op, tags map[string]bool, tableIDs map[str
 			tags["retain-before-copy"] = true
 		}
 		// a little more state, then the next periodic checkpoint's DKV save lands before the copy
-		if _, err := cl.barrierAll(nextID); err != nil {
+		nextAcks, err := cl.barrierAll(nextID)
+		if err != nil {
 			return "", nil, false, err
+		}
+		if over {
+			// ... and the next checkpoint even COMPLETES and is published while the job-file write of the savepoint's
+			// checkpoint is still held: the savepoint's publication is overtaken (superseded)
+			if err := job.HandleSourceRunnerCheckpointComplete(ctx, &jobpb.SourceRunnerCheckpointCompleteRequest{CheckpointId: nextID, SourceRunnerId: "sr0"}); err != nil {
+				return "", nil, false, fmt.Errorf("HandleSourceRunnerCheckpointComplete(next): %v", err)
+			}
+			for _, a := range nextAcks {
+				if err := job.HandleOperatorCheckpointComplete(ctx, a); err != nil {
+					return "", nil, false, fmt.Errorf("HandleOperatorCheckpointComplete(next): %v", err)
+				}
+			}
+			select {
+			case <-js.events:
+			case e := <-js.errs:
+				return "", nil, false, fmt.Errorf("the next checkpoint %d failed to publish: %v", nextID, e)
+			case <-time.After(spWait):
+				return "", nil, false, fmt.Errorf("the next checkpoint %d was never published", nextID)
+			}
+			tags["savepoint-overtaken"] = true
 		}
 		close(js.loc.release)
 	}
+	// outcome, after every gated write has been released: the savepoint id resolves to a URI, or an error was reported
+	published := true
+	var failure string
 	select {
 	case <-js.events:
 	case e := <-js.errs:
-		*terms = append(*terms, "SSave (SpFiles (@nil op_obs) (@nil bytes) (@nil bytes) false)")
-		tags["SAVEPOINT-FAILED"] = true
-		return "", map[string]any{"savepoint_error": e.Error()}, false, errStop
+		published, failure = false, e.Error()
 	case <-time.After(spWait):
 		if f := os.Getenv("RESCALE_STACKS"); f != "" {
 			buf := make([]byte, 1<<20)
@@ -289,9 +333,22 @@ func (cl *cluster) savepointRestart(o op, tags map[string]bool, tableIDs map[str
 		}
 		return "", nil, false, fmt.Errorf("savepoint %d was never published", id)
 	}
-	spURI, err := js.store.SavepointURIForID(id)
-	if err != nil {
-		return "", nil, false, fmt.Errorf("SavepointURIForID: %v", err)
+	var spURI string
+	if published {
+		u, err := js.store.SavepointURIForID(id)
+		if err != nil {
+			published, failure = false, "SavepointURIForID: "+err.Error()
+		}
+		spURI = u
+	}
+	fired := js.loc.fault() != ""
+	if fired {
+		tags["copy-fault-injected"] = true
+	}
+	*terms = append(*terms, fmt.Sprintf("SSave (SpOutcome %s %s)", hx.CoqBool(fired), hx.CoqBool(published)))
+	if !published {
+		tags["SAVEPOINT-NOT-PUBLISHED"] = true
+		return "", map[string]any{"savepoint_not_published": failure, "copy_fault": js.loc.fault()}, false, errStop
 	}
 	spDir := filepath.Dir(spURI)
 	// --- observations on the artifact
